@@ -82,6 +82,10 @@ class _Boom(Exception):
     pass
 
 
+class _BoomBase(BaseException):
+    """stands for KeyboardInterrupt / SystemExit / GeneratorExit"""
+
+
 def _state(g):
     s = g.bit_generator.state
     return (s["bit_generator"], tuple(sorted((k, int(v) if not isinstance(v, dict) else tuple(sorted((kk, int(vv)) for kk, vv in v.items())))
@@ -144,10 +148,11 @@ def h_context(B, depth, steps, first=None):
                         check(f"step {k} (entered Context({seed}))")
                         body(level + 1, budget)
                         if op == 2:
-                            log.append("raise")
-                            raise _Boom()
+                            exc = (_Boom, _BoomBase)[B.pick(f"exc{k}", 0, 1)]
+                            log.append("raise " + exc.__name__)
+                            raise exc()
                         log.append("leave")
-                except _Boom:
+                except (_Boom, _BoomBase):
                     pass
                 finally:
                     refs.pop()
@@ -208,7 +213,7 @@ META = {
     "explanation": "JAX: _kl_vg and _kl_met (sampled KL value, gradient, metric action; Gaussian likelihood with symbolic data and "
                    "noise, identity / exp / square forward model) traced with map = smap, lmap, vmap, jitted or not, interpreted over "
                    "z3 reals: equal to the vmap result and to the explicit sample average for ALL inputs.  Classic: histories of the "
-                   "nifty.cl.random API (draw, nested Context by int seed or SeedSequence left normally or by an exception, "
+                   "nifty.cl.random API (draw, nested Context by int seed or SeedSequence left normally, by an Exception or by a BaseException, "
                    "spawn_sseq), every choice a symbolic integer concretised by solver-decided forking, executed on the real module "
                    "next to a reference model (fresh generators per context): generator identity and bit-exact generator state after "
                    "every step, draws inside a context bit-identical to a fresh generator with that seed.",
